@@ -1449,6 +1449,33 @@ def check_adapt_omega(ck, view, inst):
 
 
 # -------------------------------------------------------------------------------------------------
+# the factory forwards every parameter
+# -------------------------------------------------------------------------------------------------
+
+def check_factory(ck, facts, cls, sc):
+    """E1.factory-forwards: Solver::new_multigrid(hierarchy, cycle, top_level, crs_level) hands every one of its parameters to
+    the MultiGrid constructor, each into the constructor parameter of its own name"""
+    rule = "E1.factory-forwards"
+    targs = cls[cls.index("<"):]
+    facs = [f for f in facts.functions if f.tk != "pattern" and f.name == "new_multigrid" and targs[1:-1] in (f.full or "")]
+    if not facs:
+        if not any(f.tk != "pattern" and f.name == "new_multigrid" for f in facts.functions):
+            ck.incomplete(rule, "no instantiation of Solver::new_multigrid found (driver tu/c09_multigrid.cpp)")
+        return      # the factory is one function template: it is decided on the instantiation(s) the driver provides
+    ctors = [f for f in facts.functions if f.tk != "pattern" and f.cls == cls and f.d.get("ctor")]
+    for f in facs:
+        view = FnView(norm_c08.Inliner(facts).inline(f))
+        problems, desc = norm_c08.factory_forwarding(view, ctors)
+        key = "%s::new_multigrid/%d" % (sc, len(f.params))
+        unknown = [t for k, t in problems if k == "unknown"]
+        definite = [t for k, t in problems if k != "unknown"]
+        if unknown and not definite:
+            ck.incomplete(rule, "%s: %s" % (key, unknown[0]))
+            continue
+        ck.ob(rule, key, not definite, "; ".join(definite) if definite else "every parameter (%s) is forwarded: %s" % (", ".join(p["n"] for p in f.params), desc), f.file, f.line)
+
+
+# -------------------------------------------------------------------------------------------------
 # which local operation a transfer event of the cycle reaches
 # -------------------------------------------------------------------------------------------------
 
@@ -1514,6 +1541,97 @@ def check_transfer_chain(ck, tier, used_methods):
                 ck.ob(rule, key, ok, "applies the matrix member %s%s" % (", ".join(names), "" if ok else ": the member named for `%s` is expected" % base), f.file, applies[0].get("l"))
             else:
                 ck.incomplete(rule, "%s: neither a call of the wrapped transfer nor an application of a matrix member found" % key)
+        check_transfer_clone(ck, short, fns, inl)
+        if cls.startswith("FEAT::Global::Transfer<"):
+            check_transfer_buffer(ck, short, fns, inl, used_methods)
+
+
+def check_transfer_clone(ck, short, fns, inl):
+    """E1.transfer-clone-mode: clone(mode) of a transfer class clones every operator member (prolongation, restriction,
+    truncation matrix, wrapped transfer) with the requested mode: each clone() call on a member passes the mode parameter"""
+    rule = "E1.transfer-clone-mode"
+    for f0 in fns.get("clone", []):
+        if not f0.params:
+            continue
+        f = inl.inline(f0, want=lambda call, cal: cal.name != "clone")
+        view = FnView(f)
+        mode_d = None
+        for p_ in f.params:
+            if "CloneMode" in f.type(p_["t"]):
+                mode_d = p_["d"]
+        if mode_d is None:
+            continue
+        key = "%s::clone" % short
+        calls = [n for n in walk(f.body) if n.get("k") == "MCall" and n.get("n") in ("clone", "clone_mode") and mgmodel.is_this_member(view.value(n.get("obj") or {}))]
+        if not calls:
+            ck.incomplete(rule, "%s: no clone() call on a member found" % key)
+            continue
+        for n in calls:
+            mem = strip(view.value(n["obj"])).get("n")
+            args = [view.value(a) for a in n.get("a", [])]
+            passes = any(a.get("k") == "Ref" and a.get("d") == mode_d for a in args)
+            other = [render(a) for a in args if not (a.get("k") == "Ref" and a.get("d") == mode_d)]
+            # a default argument shows up as the default value (an enumerator), not as the parameter
+            ck.ob(rule, "%s/%s" % (key, mem), passes,
+                  "%s.clone(%s) receives the requested clone mode" % (mem, f.params[0]["n"]) if passes else
+                  "%s is cloned with %s instead of the requested mode `%s`, while its siblings honour the mode: a %s clone of the operator shares / copies this matrix differently from the others (after an in-place re-assembly the cycle uses matrices of different generations)" % (
+                      mem, ", ".join(other) or "the default mode", f.params[0]["n"], "Shallow/Deep"), f.file, n.get("l"))
+
+
+def check_transfer_buffer(ck, short, fns, inl, used_methods):
+    """E8.transfer-buffer: a member buffer that the transfer methods of the cycle hand to the wrapped transfer as the coarse-side
+    operand is (re)created from the current operator on every path through compile()"""
+    rule = "E8.transfer-buffer"
+    bufs = set()
+    for m in sorted(used_methods):
+        for f0 in fns.get(m, []):
+            f = inl.inline(f0, want=lambda call, cal: cal.name not in TRANSFER_BASE)
+            view = FnView(f)
+            for n in walk(f.body):
+                if n.get("k") == "MCall" and TRANSFER_CLS_RE.match(n.get("ccls") or "") and n.get("n") in TRANSFER_BASE:
+                    for a in n.get("a", []):
+                        av = view.value(a)
+                        if mgmodel.is_this_member(av):
+                            bufs.add(strip(av)["n"])
+    comp = fns.get("compile", [])
+    if not bufs:
+        ck.incomplete(rule, "%s: no member buffer is handed to the wrapped transfer (the muxer branches vanished?)" % short)
+        return
+    if len(comp) != 1:
+        ck.incomplete(rule, "%s: %d definitions of compile()" % (short, len(comp)))
+        return
+    f = inl.inline(comp[0])
+    view = FnView(f)
+    for buf in sorted(bufs):
+        key = "%s::compile/%s" % (short, buf)
+        writes = []
+        for b in view.cfg.blocks.values():
+            for e in b["el"]:
+                n = view.byid.get(e)
+                if n is None:
+                    continue
+                tgt = None
+                if n.get("k") == "Assign" and n.get("op") == "=":
+                    tgt = n["lhs"]
+                elif n.get("k") == "OpCall" and n.get("op") == "=" and len(n.get("a", [])) == 2:
+                    tgt = n["a"][0]
+                elif n.get("k") == "MCall" and n.get("n") in ("clone", "convert", "resize", "assign") and not n.get("cconst"):
+                    tgt = n.get("obj")
+                if tgt is not None and mgmodel.is_this_member(view.value(tgt), buf):
+                    writes.append(n)
+        if not writes:
+            opaque = [n for n in walk(f.body) if n.get("k") == "MCall" and (n.get("obj") is None or strip(n["obj"]).get("k") == "This") and not n.get("cconst")]
+            if opaque:
+                ck.incomplete(rule, "%s: %s is not assigned in compile(), but %s() is called, which is not modelled" % (key, buf, opaque[0].get("n")))
+            else:
+                ck.ob(rule, key, False, "%s is the coarse-side buffer of %s but compile() never (re)creates it: after the operator is re-assembled for another coarse dimension the buffer keeps its old size" % (
+                    buf, "/".join(sorted(used_methods))), f.file, f.line)
+            continue
+        esc = view.flow_from(None, stop={n["i"] for n in writes})[1]
+        ck.ob(rule, key, not esc,
+              "%s is (re)created on every path through compile()" % buf if not esc else
+              "%s is (re)created only on some paths of compile() (line %s is conditional): a transfer that is compiled again after its matrices were replaced keeps the buffer of the first coarse dimension, and the muxer branches of %s work on a vector of the wrong size" % (
+                  buf, writes[0].get("l"), "/".join(sorted(used_methods))), f.file, writes[0].get("l"))
 
 
 # -------------------------------------------------------------------------------------------------
@@ -1663,6 +1781,9 @@ def run(tier):
     ck.rule("E8.sol-epoch", "a level solution is started afresh (format / solve from rhs) exactly when its rhs is new, and corrections are only added to / prolongated from a solution of the current rhs; breaks on repeated application and in the F/W inner peaks", 36)
     ck.rule("E7.peak-fallback", "_apply_smooth_peak applies the peak smoother if given, otherwise the pre-smoother then the post-smoother, each if given, each only after its presence was tested", 9)
     ck.rule("E2.w-counters", "every subscript of the W-cycle peak-counter array _counters (search, inner reset, increment, sanity check) is an absolute level index within [top_level, last_level], and the reset at cycle entry covers, as symbolic intervals in top_level/last_level, every counter any later statement can touch; breaks on the second W-cycle application with top_level > 0 (stale counters: wrong peak order / sanity abort)", 5)
+    ck.rule("E1.factory-forwards", "the factory Solver::new_multigrid(hierarchy, cycle, top_level, crs_level) uses every one of its parameters and hands each, positionally, to the MultiGrid constructor parameter of its own name (a dropped trailing argument is silently replaced by the constructor's default: a multigrid requested for the level range [top, crs] runs on [top, coarsest]); breaks for every explicit crs_level other than the coarsest level", 1)
+    ck.rule("E1.transfer-clone-mode", "clone(mode) of a transfer operator class (LAFEM::Transfer, Global::Transfer) passes the requested clone mode to the clone() of every operator member (prolongation, restriction and truncation matrix; the wrapped transfer): siblings cloned with different modes share / copy their arrays differently, so after an in-place re-assembly of the original a Shallow clone restricts with the old R and prolongates with the new P; breaks for every non-default clone mode followed by a value update", 4)
+    ck.rule("E8.transfer-buffer", "Global::Transfer: the member buffer that rest / prol / rest_send / prol_recv hand to the wrapped transfer as coarse-side operand on the muxer branches is (re)created from the current operator on every path through compile(); breaks when a transfer object is re-assembled for another coarse dimension and compiled again (stale buffer size on processes whose coarse muxer is child)", 1)
     ck.rule("E1.transfer-method-chain", "the transfer methods the cycle calls on a level's transfer operator (rest / rest_send / prol / prol_recv, taken from the events of _apply_rest / _apply_prol) reach the local operation of the same kind in every branch of every transfer class a multigrid can be built on: Global::Transfer calls only rest() resp. prol() of the wrapped transfer, on every normal path (direct branch, muxer parent/child branch, ghost send/recv twins), and LAFEM::Transfer applies the matrix member named for the kind; breaks on processes whose coarse muxer is child and parent (the defect is restricted with the truncation matrix: still convergent, different linear map)", 6)
     ck.rule("E8.config-cache", "a member of MultiGrid that caches a value computed from a configuration field (a member that a non-constructor member function assigns from its parameters: _top_level, _crs_level, _cycle, _adapt_cgc) and that apply() reads is reassigned, on every path, by every function that modifies that field — or the value is not cached at all; breaks for set_levels()/set_cycle()/... on an initialised object followed by apply() (the cycle runs with the stale cached value)", 4)
     ck.rule("E6.adapt-omega", "adaptive coarse grid correction: MinEnergy w = <def,cor>/<A cor,cor>, MinDefect w = <def,A cor>/<A cor,A cor> with tmp = A*cor of the same level", 2)
@@ -1686,6 +1807,7 @@ def run(tier):
         if missing:
             ck.incomplete("E14.cycle-shape", "%s: anchored functions vanished: %s" % (sc, ", ".join(missing)))
             continue
+        check_factory(ck, facts, cls, sc)
         # 0. cached configuration (decides E8.config-cache; tells the level analysis what a caching member denotes)
         dmap = check_config_cache(ck, facts, cls, sc, inl)
         derived = {m: (MGView(dv.fn), dexpr) for m, (dv, dexpr, df) in dmap.items()}
